@@ -48,7 +48,7 @@ LEVEL_TEXT = (
   "Runtime metamorphic monitoring: compacted path versus full solve of the same model over generated states, exhaustive over "
   "the asleep/awake subsets of each scene, capacity swept through the exact-fit boundary."
 )
-BUDGET = {"quick": 150, "thorough": 1500}
+BUDGET = {"quick": 300, "thorough": 1500}
 
 ITER = 20
 NCONMAX = 48
